@@ -48,7 +48,7 @@ def generate(master, index, tier):
         "items": items,
         "driver": rng.choice(("iterate", "read", "read")),
         "max_none": rng.choice((0, 1, 3, 8)),
-        "opts": {"quitonerror": rng.choice((0, 1, 2)), "labelmsm": rng.choice((1, 2)), "handler": rng.choice((False, False, "method", "function", "collector", "falsy"))},
+        "opts": {"quitonerror": rng.choice((0, 1, 2)), "labelmsm": rng.choice((1, 2)), "handler": rng.choice((False, False) + W.HANDLER_KINDS)},
         "sched": sched,
     }
 
